@@ -61,7 +61,7 @@ func c12Color(r *gen.Rand) string {
 }
 
 func c12Length(r *gen.Rand) string {
-	return pickS(r, "0", "0px", "1px", "2px", "3px", "4px", "10px", "1.0px", "0.5px", ".5px", "1e1px", "+5px", "-5px", "1em", "50%", "0%", "calc(1px + 2px)", "calc(2 * 3px)", "calc(10px - 4px)", "calc(8px / 2)", "auto", "calc((1px + 1px) * 2)", "010px", "1.50em", "100.0%")
+	return pickS(r, "0", "0px", "1px", "2px", "3px", "4px", "10px", "1.0px", "0.5px", ".5px", "1e1px", "+5px", "-5px", "1em", "50%", "0%", "calc(1px + 2px)", "calc(2 * 3px)", "calc(10px - 4px)", "calc(8px / 2)", "auto", "calc((1px + 1px) * 2)", "010px", "1.50em", "100.0%", "6vw", "5vh", "2vw", "1.5e10px", "00%", "000px")
 }
 
 func c12Decl(r *gen.Rand, allowLogical bool) string {
@@ -118,7 +118,18 @@ func c12Sheet(r *gen.Rand, depth int) string {
 		}
 		switch c {
 		case 0:
-			sb.WriteString("@media " + pickS(r, "(min-width: 100px)", "screen", "(max-width: 50px)") + " {\n" + c12Rule(r) + "\n" + c12Rule(r) + "\n}\n")
+			mq := pickS(r, "(min-width: 100px)", "screen", "(max-width: 50px)")
+			if r.Chance(1, 3) {
+				// the same condition nested in itself (unwrapped by the minifier) between two rules that are merge candidates
+				first := c12Rule(r)
+				third := c12Rule(r)
+				if i := strings.IndexByte(first, '{'); i > 0 && r.Bool() {
+					third = c12Selector(r) + " " + first[i:]
+				}
+				sb.WriteString("@media " + mq + " {\n" + first + "\n@media " + mq + " {\n" + c12Rule(r) + "\n}\n" + third + "\n}\n")
+			} else {
+				sb.WriteString("@media " + mq + " {\n" + c12Rule(r) + "\n" + c12Rule(r) + "\n}\n")
+			}
 		case 1:
 			sb.WriteString("@supports " + pickS(r, "(display: grid)", "(inset: 0)") + " {\n" + c12Rule(r) + "\n}\n")
 		case 2, 3:
